@@ -54,14 +54,17 @@ Definition eve (x : lv) (name : string) (n : nat) (bad : list (nat * check_resul
 Definition bda (i : nat) (r : check_result) : nat * check_result := (i, r).
 Definition mkobs (r : response) (tr : list event) : obs := (r, tr).
 
-(** response agreement on the observables: everything except that the "error"
-    annotation is compared up to the model's stable prefix, 422 messages are not
-    modelled, and causes are compared by label key *)
+(** response agreement on the observables.  Not compared, because no property pins them and a
+    maintainer may reword or reorder them: the text of the "error" annotation and of non-403
+    messages (presence, code and reason are compared); which of several matching exemption
+    dimensions an exempt answer names (the relation P06 demands that it names one that matched);
+    causes are compared by label key *)
 Definition audit_match (m i : list (string * string)) : bool :=
   Nat.eqb (List.length m) (List.length i) &&
   forallb (fun kv : string * string =>
              match lookup (fst kv) i with
-             | Some v => if String.eqb (fst kv) "error" then has_prefix (snd kv) v else String.eqb (snd kv) v
+             | Some v => if String.eqb (fst kv) "error" || String.eqb (fst kv) "exempt" then true
+                         else String.eqb (snd kv) v
              | None => false
              end) m.
 Definition shared_eqb (a b : shared_tag) : bool :=
@@ -70,6 +73,9 @@ Definition shared_eqb (a b : shared_tag) : bool :=
   | SharedUser, SharedUser | SharedNamespace, SharedNamespace | SharedRuntimeClass, SharedRuntimeClass => true
   | _, _ => false
   end.
+Definition is_exempt_tag (a : shared_tag) : bool :=
+  match a with SharedUser | SharedNamespace | SharedRuntimeClass => true | _ => false end.
+Definition shared_match (a b : shared_tag) : bool := shared_eqb a b || (is_exempt_tag a && is_exempt_tag b).
 (** pod / controller texts are compared from their first double quote on (the sentence around
     the quoted level:version and the evaluator's detail may be reworded without touching any
     property); namespace warnings are compared exactly *)
@@ -82,7 +88,7 @@ Definition audit_match_loose (m i : list (string * string)) : bool :=
   Nat.eqb (List.length m) (List.length i) &&
   forallb (fun kv : string * string =>
              match lookup (fst kv) i with
-             | Some v => if String.eqb (fst kv) "error" then true
+             | Some v => if String.eqb (fst kv) "error" || String.eqb (fst kv) "exempt" then true
                          else if String.eqb (fst kv) "audit-violations" then String.eqb (from_quote (snd kv)) (from_quote v)
                          else String.eqb (snd kv) v
              | None => false
@@ -93,15 +99,15 @@ Definition resp_match_loose (m i : response) : bool :=
   && (if opt_eqb Z.eqb (rs_code m) (Some 403%Z) then String.eqb (from_quote (rs_message m)) (from_quote (rs_message i)) else true)
   && list_eqb String.eqb (map from_quote (rs_warnings m)) (map from_quote (rs_warnings i))
   && audit_match_loose (rs_audit m) (rs_audit i)
-  && shared_eqb (rs_shared m) (rs_shared i).
+  && shared_match (rs_shared m) (rs_shared i).
 Definition resp_match (m i : response) : bool :=
   Bool.eqb (rs_allowed m) (rs_allowed i) && opt_eqb Z.eqb (rs_code m) (rs_code i)
   && String.eqb (rs_reason m) (rs_reason i)
-  && (opt_eqb Z.eqb (rs_code m) (Some 422%Z) || String.eqb (rs_message m) (rs_message i))
+  && (if opt_eqb Z.eqb (rs_code m) (Some 403%Z) then String.eqb (from_quote (rs_message m)) (from_quote (rs_message i)) else true)
   && list_eqb String.eqb (map fst (rs_causes m)) (map fst (rs_causes i))
   && list_eqb String.eqb (rs_warnings m) (rs_warnings i)
   && audit_match (rs_audit m) (rs_audit i)
-  && shared_eqb (rs_shared m) (rs_shared i).
+  && shared_match (rs_shared m) (rs_shared i).
 Definition mode_eqb (a b : emode) : bool :=
   match a, b with ModeEnforce, ModeEnforce | ModeAudit, ModeAudit | ModeWarn, ModeWarn => true | _, _ => false end.
 Definition event_match (m i : event) : bool :=
